@@ -189,7 +189,14 @@ fn seeds_for(e: Endian) -> Vec<Seed> {
         let stack = synth::Memory::with_section(sec().D64(0x0040_1020).D64(0x7000_0030).append_repeated(0x11, 48), 0x7000_0000);
         let ctx = sec().append_bytes(&bytes);
         let nparams = if nm == "x86" { 15 } else { 2 };
-        d = d.add_stream(exception_stream(e, 5, 0xC000_0005, 0, 0x0040_1010, nparams, Some(&ctx)));
+        // an exception the OS's own decoder reads parameters for: EXC_RESOURCE (memory) on macOS, EXC_GUARD (file
+        // descriptor) on iOS - both look at the code, the flags and two further parameters
+        let (code, flags, nparams) = match os {
+            P::MacOs => (11, 3 << 29, 3),
+            P::Ios => (12, 2 << 29, 3),
+            _ => (0xC000_0005, 0, nparams),
+        };
+        d = d.add_stream(exception_stream(e, 5, code, flags, 0x0040_1010, nparams, Some(&ctx)));
         d = d.add_thread(synth::Thread::new(e, 5, &stack, &ctx)).add_memory(stack).add(ctx);
         out.push(finish(&format!("cpu-{nm}"), e, d));
     }
